@@ -306,6 +306,9 @@ package rag
 //@   requires og.config.Size >= 0
 //@   callsite generateCharacterOverlap(t) requires sameseq(t, cutAtRuneBoundary(overlap, og.config.MaxOverlap))
 //@   ensures short_overlap_unchanged: len(overlap) <= og.config.MaxOverlap ==> sameseq(r, overlap)
+//@   ensures never_longer_than_the_maximum: og.config.MaxOverlap >= 0 ==> len(r) <= og.config.MaxOverlap
+//@   loop 0:
+//@     invariant joined_sentences_fit: len(result.String()) <= og.config.MaxOverlap || len(result.String()) == 0
 
 // Overlap for chunk i is generated from the ORIGINAL text of chunk i-1 (its own content), never from a text that
 // already carries chunk i-2's overlap.
